@@ -36,6 +36,10 @@ contains the country-specific identifier.
 Traceback (most recent call last):
     ...
 InvalidFormat: ...
+>>> validate('ES00ZZZ00000064N')  # check digits are between 02 and 98
+Traceback (most recent call last):
+    ...
+InvalidChecksum: ...
 >>> validate('ES23ZZZ47690558!')
 Traceback (most recent call last):
     ...
@@ -77,7 +81,9 @@ def validate(number):
         test_number = _to_base10(number)
     except Exception:  # noqa: B902
         raise InvalidFormat()
-    # ensure that checksum is valid
+    # ensure that checksum is valid (00, 01 and 99 are never calculated)
+    if number[2:4] in ('00', '01', '99'):
+        raise InvalidChecksum()
     mod_97_10.validate(test_number)
     return number
 
